@@ -96,35 +96,58 @@ def check_compress_funnel(rep, cfg):
 
 
 def check_sign(rep, cfg):
-    ps = cfg.find(lambda p: p.endswith("::is_nonnegative") and "sign" in p.lower() and "r1cs" not in p)
-    if len(ps) != 1:
-        rep.fail_closed("Sign::is_nonnegative for Fq not found in cfg %s (%s)" % (cfg.name, ps))
+    """the sign convention of Fq, decided on the RESOLVED methods (an impl item where the impl defines one, the trait default otherwise), so the
+    rule does not depend on which of is_nonnegative / is_negative the impl happens to define as the primitive:
+        is_nonnegative(x) = (canonical limb 0 of x) & 1 == 0,   is_negative = its negation,   abs(x) = if nonnegative {x} else {-x}"""
+    methods = ("is_nonnegative", "is_negative", "abs")
+    impl_paths = {}
+    for p in cfg.prog.bodies:
+        for m in methods:
+            if p.endswith("::" + m) and " as sign::Sign>" in p and "fq" in p.lower() and "r1cs" not in p:
+                impl_paths[m] = p
+    default_paths = {m: "sign::Sign::" + m for m in methods if cfg.prog.body("sign::Sign::" + m) is not None}
+    if not (set(impl_paths) | set(default_paths)) >= set(methods):
+        rep.fail_closed("sign::Sign methods for Fq not found in cfg %s (impl: %s, defaults: %s)" % (cfg.name, sorted(impl_paths), sorted(default_paths)))
         return
-    out = cfg.run(ps[0])
     x = mk("param", "self")
-    want = Tm.eq(Tm.intop("band", Tm.index(mk("canon_limbs", x), lit(0)), lit(1)), lit(0))
-    rep.ob("SIGN/%s/is_nonnegative" % cfg.name, out.value is want,
-           "sign convention must read bit 0 of limb 0 of the canonical (to_le_limbs) value: expected %s, got %s" % (Tm.show(want), Tm.show(out.value, maxdepth=6)),
-           where=cfg.where(ps[0]))
-    for nm, wantf in (("is_negative", lambda: Tm.not_(mk("call", "nonneg", x))), ("abs", None)):
-        pp = cfg.find(lambda p: p == "sign::Sign::" + nm)
-        if not pp:
-            rep.fail_closed("trait default sign::Sign::%s not found" % nm)
-            continue
-        # interpret the provided method with is_nonnegative as an opaque predicate
-        loc = {"sign::Sign::is_nonnegative": (lambda ctx: mk("nonneg", ctx.args[0]))}
-        o = cfg.run(pp[0], local=loc)
-        if nm == "is_negative":
-            ok = o.value is Tm.not_(mk("nonneg", x))
-        else:
-            ok = o.value is Tm.ite(mk("nonneg", x), x, mk("neg", x)) or o.value is Tm.ite(mk("nonneg", x), x, mk("call", "core::ops::Neg::neg", x))
-        rep.ob("SIGN/%s/%s" % (cfg.name, nm), ok, "Sign::%s must be %s; got %s" % (nm, "!is_nonnegative" if nm == "is_negative" else "if nonneg {x} else {-x}", Tm.show(o.value, maxdepth=5)),
-               where=cfg.where(pp[0]))
-    # no override of the defaults
-    for im in cfg.prog.impls:
-        if im.get("trait_only", "").endswith("sign::Sign"):
-            names = [it["name"] for it in im["items"]]
-            rep.ob("SIGN/%s/no-override" % cfg.name, names == ["is_nonnegative"], "impl Sign for %s defines %s (abs/is_negative must be the trait defaults)" % (im["self"], names), nontrivial=False)
+    memo, busy = {}, set()
+
+    def sem(m, arg):
+        """term of method m applied to arg, with calls to the other Sign methods replaced by their own resolved semantics"""
+        if m in busy:
+            return mk("cyclic", m)
+        path = impl_paths.get(m) or default_paths.get(m)
+        key = (m,)
+        if key not in memo:
+            busy.add(m)
+            loc = {}
+            for m2 in methods:
+                if m2 == m:
+                    continue
+                f2 = (lambda mm: (lambda ctx: sem(mm, ctx.args[0])))(m2)
+                for k2 in (impl_paths.get(m2), "sign::Sign::" + m2):      # a call in a generic default body is keyed by the trait method
+                    if k2:
+                        loc[k2] = f2
+            from . import engine as E_, summaries as S_
+            I = E_.Interp(cfg.prog, S_.Summaries(local=loc), {})
+            out = I.run(path)
+            busy.discard(m)
+            memo[key] = (out.value, out.params[0] if out.params else x, out.unmodelled)
+        v, par, unm = memo[key]
+        return Tm.subst(v, {par: arg}) if par is not arg else v
+    nonneg_want = Tm.eq(Tm.intop("band", Tm.index(mk("canon_limbs", x), lit(0)), lit(1)), lit(0))
+    got = sem("is_nonnegative", x)
+    rep.ob("SIGN/%s/is_nonnegative" % cfg.name, got is nonneg_want and not memo[("is_nonnegative",)][2],
+           "sign convention must read bit 0 of limb 0 of the canonical (to_le_limbs) value: expected %s, got %s" % (Tm.show(nonneg_want), Tm.show(got, maxdepth=6)),
+           where=cfg.where(impl_paths.get("is_nonnegative") or default_paths["is_nonnegative"]))
+    got = sem("is_negative", x)
+    rep.ob("SIGN/%s/is_negative" % cfg.name, got is Tm.not_(nonneg_want) and not memo[("is_negative",)][2],
+           "is_negative must be the negation of is_nonnegative; got %s" % Tm.show(got, maxdepth=6), where=cfg.where(impl_paths.get("is_negative") or default_paths["is_negative"]))
+    got = sem("abs", x)
+    want_abs = [Tm.ite(nonneg_want, x, mk("neg", x)), Tm.ite(nonneg_want, x, mk("call", "core::ops::Neg::neg", x))]
+    unm_abs = [u for u in memo[("abs",)][2] if "core::ops::Neg::neg" not in u]      # `-self` on the generic Self is the operator itself
+    rep.ob("SIGN/%s/abs" % cfg.name, any(got is w for w in want_abs) and not unm_abs,
+           "abs must be `if nonnegative {x} else {-x}`; got %s" % Tm.show(got, maxdepth=6), where=cfg.where(impl_paths.get("abs") or default_paths["abs"]))
 
 
 def isqrt_zero_cases(rep, cfg):
